@@ -17,9 +17,6 @@ NOT_APPLICABLE = {
            'a unit holding destroy_service alone would decide no clause. Object (unit broker_object) is proved under C02.',
     'C06': 'quantifies over schedules of async tasks; Kani has no scheduler/thread model, Verus would need '
            'permission-typed futures; no per-function contract expresses absence of lost wake-ups.',
-    'C14': 'Packetizer::next_message is split_to + truncate + reserve on a BytesMut (the operations whose CBMC cost made '
-           'every probe time out, see DESIGN 1.2/1.4) and the transports are Pin-projected poll functions over async I/O '
-           'objects; no harness shape completed, and Verus cannot import bytes/tokio. No bounded stand-in is claimed.',
     'C09': 'teardown (shutdown_connection, remove_* helpers: for-loops over impl Iterator) and the statistics counters '
            '(cfg(feature) code, dropped by the extraction) are outside Verus\'s subset; "no residual state" is a whole-broker '
            'invariant. Leaf facts proved elsewhere: State queues are LIFO (unit broker_state, under C02), live connection ids '
